@@ -123,19 +123,23 @@ def rule_a(ctx):
     late = sorted(p for p in prot if sd.reachable_from(p) & errs)
     ctx.check(bool(errs) and not late, 'a', 'state_changes_only_on_accepting_edge', sd, sd.where(), 'no push_back / outgoing_total store can be followed by an Err(..) exit',
               'blocks %s change the queue / outgoing_total and can still reach an Err(..) exit: a rejected datagram stays queued / charged' % late)
-    # blocked: !has_send_buffer_space
+    # blocked: !has_send_buffer_space.  Exactly the branches on has_send_buffer_space are looked at, each with its own call
+    # site: one of them is the Blocked decision (all five conditions below); any other one must be the header of the
+    # send-buffer eviction loop (the body of DatagramState::make_space_for written out in the caller): its no-space edge
+    # pops the front of `outgoing` before any return / push, and can reach neither Err(Blocked) nor a send_blocked store
     hs = sd.calls_to('DatagramState::has_send_buffer_space')
-    ok = False
-    why = 'no branch on has_send_buffer_space'
     sbv = store_values(ctx, DS, 'send_blocked', in_fn=sd)
     eff = effect_blocks(ctx, sd, variant=('SendDatagramError', 'Blocked'))
+    pops = {c.bb for c in sd.calls_to('VecDeque::pop_front') if c.args and _is_flag(arg_desc(F, c, 0), 'outgoing')}
+    set_true = {w.bb for w, v in sbv if _is_bool(v, True)}
+    decisions, whys, seen = [], [], set()
     for c in hs:
         for br in branches(F, sd):
             inner, neg = peel_not(br.desc)
-            if inner[0] == 'call' and contains_site(inner, c):
+            if inner[0] == 'call' and contains_site(inner, c) and br.bb not in seen:
+                seen.add(br.bb)
                 t_no = br.target(1 if neg else 0)
                 region = sd.reachable_from(t_no)
-                set_true = {w.bb for w, v in sbv if _is_bool(v, True)}
                 conds = (
                     (bool(eff) and path_avoiding(sd, [t_no], rets | set(prot), eff) is None, 'the no-space edge reaches a return / the queue without Err(Blocked)'),
                     (bool(sbv) and all(_is_bool(v, True) for w, v in sbv), 'send_blocked is not stored as `true` (%s)' % [D.render(v)[:40] for w, v in sbv]),
@@ -143,8 +147,14 @@ def rule_a(ctx):
                     (bool(set_true) and path_avoiding(sd, [t_no], rets, set_true) is None, 'a path over the no-space edge returns without send_blocked = true'),
                     (not any(sd.reachable_from(p) & eff for p in prot), 'the queue / outgoing_total is changed before the Blocked decision: a rejected datagram stays charged'),
                 )
-                ok = all(x for x, _ in conds)
-                why = '; '.join(t for x, t in conds if not x)
+                if all(x for x, _ in conds):
+                    decisions.append(br)
+                    continue
+                evicts = bool(pops) and path_avoiding(sd, [t_no], rets | set(push), pops) is None and not (region & (eff | {w.bb for w, v in sbv}))
+                if not evicts:
+                    whys.append('; '.join(t for x, t in conds if not x))
+    ok = bool(decisions) and not whys
+    why = ' | '.join(whys) or ('no branch on has_send_buffer_space' if not seen else 'every branch on has_send_buffer_space only evicts, none decides Blocked')
     ctx.check(ok, 'a', 'blocked_iff_no_space', sd, sd.where(), '!has_send_buffer_space -> send_blocked = true; Err(Blocked); queue and outgoing_total untouched',
               'the Blocked outcome no longer follows has_send_buffer_space / does not record send_blocked: ' + why)
     hb = ctx.pfn('DatagramState::has_send_buffer_space')
@@ -191,10 +201,15 @@ def rule_c(ctx):
         ok = bool(b.calls_to(rm)) and not b.calls_to('VecDeque::pop_back')
         ctx.check(ok, 'c', 'oldest_first_' + fn.split('::')[-1], b, b.where(), rm, '%s no longer takes the oldest datagram (pop_front)' % what)
     rc = ctx.pfn('DatagramState::received')
-    ok = bool(rc.calls_to('DatagramState::recv')) and bool(rc.calls_to('VecDeque::push_back')) and not rc.calls_to('VecDeque::pop_back') and not rc.calls_to('VecDeque::push_front')
-    ctx.check(ok, 'c', 'receive_overflow_drops_oldest', rc, rc.where(), 'evict with recv() (pop_front), append with push_back', 'receive-buffer overflow no longer drops the oldest datagram first')
+    # eviction = DatagramState::recv() (pop_front there: oldest_first_recv) or its body written out: pop_front of self.incoming
+    # (the release of the popped datagram's bytes is rule f)
+    evict = rc.calls_to('DatagramState::recv') or _direct_pops(F, rc, 'incoming')
+    ok = bool(evict) and bool(rc.calls_to('VecDeque::push_back')) and not rc.calls_to('VecDeque::pop_back') and not rc.calls_to('VecDeque::push_front')
+    ctx.check(ok, 'c', 'receive_overflow_drops_oldest', rc, rc.where(), 'evict with recv() / incoming.pop_front(), append with push_back', 'receive-buffer overflow no longer drops the oldest datagram first')
     sd = ctx.pfn('Datagrams::send')
-    ctx.check(bool(sd.calls_to('VecDeque::push_back')) and not sd.calls_to('VecDeque::push_front'), 'c', 'send_appends_at_back', sd, sd.where(), 'push_back', 'send() no longer appends at the back of the queue')
+    # (an eviction loop written out in send() takes from the front as make_space_for does)
+    ctx.check(bool(sd.calls_to('VecDeque::push_back')) and not sd.calls_to('VecDeque::push_front') and not sd.calls_to('VecDeque::pop_back'), 'c', 'send_appends_at_back', sd, sd.where(), 'push_back',
+              'send() no longer appends at the back of the queue / evicts from the back')
     wr = ctx.pfn('DatagramState::write')
     ok = bool(wr.calls_to('VecDeque::push_front')) and not wr.calls_to('VecDeque::push_back')
     ctx.check(ok, 'c', 'unsent_datagram_returns_to_front', wr, wr.where(), 'push_front(datagram) when it does not fit', 'a datagram that did not fit is not put back at the front: the queue is no longer in age order and oldest-first eviction breaks')
@@ -338,6 +353,28 @@ def _adjusts_by_len(v, op, is_counter):
     return (is_counter(v[2]) and is_len(v[3])) or (is_counter(v[3]) and is_len(v[2]))
 
 
+_QUEUE_OF = {'recv_buffered': 'incoming', 'outgoing_total': 'outgoing'}      # byte counter -> the queue it accounts for
+
+
+def _direct_pops(F, b, queue):
+    """live calls `VecDeque::pop_front(<..>.queue)` in the body `b`"""
+    return [c for c in b.calls_to('VecDeque::pop_front') if c.args and _is_flag(arg_desc(F, c, 0), queue)]
+
+
+def _popped_front_site(v, fld):
+    """v IS `counter - Bytes::len((VecDeque::pop_front(S.queue) as Some).0.data)` with counter = S.fld of the same state S and
+    queue the queue `fld` accounts for: returns the block of the pop_front call, else None"""
+    if not (v[0] == 'bin' and v[1] == 'Sub' and _is_flag(v[2], fld) and _is_call(v[3], 'Bytes::len') and len(v[3][3]) == 1):
+        return None
+    e = v[3][3][0]
+    if not (e[0] == 'field' and e[2] == 'data' and e[1][0] == 'field' and e[1][2] == '0' and e[1][1][0] == 'variant' and e[1][1][2] == 'Some'):
+        return None
+    p = e[1][1][1]
+    if _is_call(p, 'VecDeque::pop_front') and len(p[3]) == 1 and _is_flag(p[3][0], _QUEUE_OF[fld]) and p[3][0][1] == v[2][1]:
+        return p[4]
+    return None
+
+
 def _upvar_is(t, field):
     """closure capture of the place `<..>.field` (edition-2021 precise capture names the captured path)"""
     return t[0] == 'upvar' and (t[1] == field or t[1].endswith('.' + field))
@@ -350,9 +387,22 @@ def rule_f(ctx):
                               ('DatagramState::write', 'outgoing_total', 'Sub', 'transmit')):
         b = ctx.pfn(fn)
         st = [(w, v) for w, v in store_values(ctx, DS, fld, in_fn=b)]
-        ok = bool(st) and all(_adjusts_by_len(v, op, lambda t: _is_flag(t, fld)) for w, v in st)
-        ctx.check(ok, 'f', 'byte_accounting_%s_%s' % (fn.split('::')[-1], fld), b, st[0][0].where() if st else b.where(), '%s %s= data.len()' % (fld, '+' if op == 'Add' else '-'),
-                  '%s no longer adjusts %s by exactly the datagram length' % (fn, fld))
+        own = [(w, v) for w, v in st if _adjusts_by_len(v, op, lambda t: _is_flag(t, fld))]
+        # a function that charges a pushed datagram may also contain the eviction written out (the body of DatagramState::recv /
+        # make_space_for in the caller): `counter -= <queue.pop_front() as Some>.0.data.len()` on the queue this counter belongs to
+        rel = [(w, v) for w, v in st if op == 'Add' and _popped_front_site(v, fld) is not None]
+        ok = bool(own) and len(own) + len(rel) == len(st)
+        why = '%s no longer adjusts %s by exactly the datagram length' % (fn, fld)
+        if ok and op == 'Add':
+            # ... and then every datagram popped directly is released: from the Some edge of the pop every path to a return / the next pop stores the release
+            for c in _direct_pops(F, b, _QUEUE_OF[fld]):
+                rb = {w.bb for w, v in rel if _popped_front_site(v, fld) == c.bb and w.body.id == b.id}
+                brs = [br for br in branches(F, b) if br.desc[0] == 'discr' and is_site(br.desc[1], c)] if c.body.id == b.id else []
+                starts = [br.target(1) for br in brs] or list(c.body.succ[c.bb])
+                if not rb or c.body.id != b.id or path_avoiding(b, starts, set(b.return_blocks()) | {c.bb}, rb) is not None:
+                    ok = False
+                    why = '%s pops a datagram off %s (%s) without releasing its bytes from %s' % (fn, _QUEUE_OF[fld], c.where(), fld)
+        ctx.check(ok, 'f', 'byte_accounting_%s_%s' % (fn.split('::')[-1], fld), b, st[0][0].where() if st else b.where(), '%s %s= data.len()' % (fld, '+' if op == 'Add' else '-'), why)
     # after an MTU fallback the purge is unconditional: no `send_blocked` test may decide whether drop_oversized runs
     for b in F.code_bodies('quinn_proto'):
         for c in b.calls_to('DatagramState::drop_oversized'):
